@@ -441,7 +441,10 @@ class MapfileTransformer(Transformer):
         pairs = [(v[0].value, v[1].value) for v in body]
 
         key_token = tokens[0]
-        value_token = tokens[1][0]  # take the first numeric value pair as the token
+        if body:
+            value_token = tokens[1][0]  # take the first numeric value pair as the token
+        else:
+            value_token = tokens[-1]  # an empty block - use the END token for the position
         value_token.value = pairs  # set its value to all values
         tokens = (key_token, value_token)
 
